@@ -50,14 +50,16 @@ QuickModes == << Mode(Wide,   LookAll, 3, 1, FALSE, 0),
                  Mode(TblKey, LookTbl, 4, 1, FALSE, 2),
                  Mode(TblKey, LookTbl, 4, 1, FALSE, 3) >>
 
-\* thorough tier, exhaustive part: every vector up to length 4 (wide), 6
-\* (medium), 5 (neutral values), 7 (narrow); every sorted vector up to
-\* length 8; tables up to 6 x 4
+\* thorough tier, exhaustive part: every vector up to length 4 (12-value
+\* pool), 6 (5 values), 5 (neutral values), 8 (one value per type); every
+\* sorted vector up to length 6 (9 values) and 8 (6 values); tables up to
+\* 6 x 4
 BigModes == << Mode(Wide,   LookAll, 4, 1, FALSE, 0),
-               Mode(Medium \ {Sab}, LookAll, 6, 1, FALSE, 0),
-               Mode(Neutr,  LookAll, 5, 2, FALSE, 0),
-               Mode(Narrow, LookAll, 7, 1, FALSE, 0),
-               Mode(Sorted, LookAll, 8, 1, TRUE,  0),
+               Mode({Num(1), Num(2), Sa, SA, Tr}, LookAll, 6, 1, FALSE, 0),
+               Mode(Neutr \ {Err("#N/A")}, LookAll, 5, 1, FALSE, 0),
+               Mode({Num(1), Sa, Tr}, LookAll, 8, 1, FALSE, 0),
+               Mode(Sorted, LookAll, 6, 1, TRUE,  0),
+               Mode({Num(0), Num(1), Sa, SA, Fa, Tr}, LookAll, 8, 1, TRUE, 0),
                Mode(TblKey \ {Sb}, LookTbl, 6, 1, FALSE, 2),
                Mode(TblKey \ {Sb}, LookTbl, 6, 1, FALSE, 3),
                Mode(TblKey \ {Sb}, LookTbl, 6, 1, FALSE, 4) >>
